@@ -1246,6 +1246,9 @@ def leg_flavours(progs, flavours, jobs=16):
             "mixed-sa": P.with_flavour(p.ops[:half], "s") + P.with_flavour(p.ops[half:], "a"),
             "mixed-as": P.with_flavour(p.ops[:half], "a") + P.with_flavour(p.ops[half:], "s"),
         }
+        if p.tags.get("async_only"):
+            # calls that exist on the async side only: the all-async form, compared ACROSS the two runtimes
+            forms = {"async": forms["async"]}
         for name, ops in forms.items():
             for fl in flavours:
                 variants.append((p, name, fl, ops))
